@@ -46,9 +46,27 @@ ALIAS = {'m': ['m', 'meter'], 'um': ['um', 'micron'], 'nm': ['nm', 'nanometer'],
 MPU = {'m': Fraction(1), 'um': Fraction(1, 10**6), 'nm': Fraction(1, 10**9), 'angstrom': Fraction(1, 10**10)}   # metres per unit
 BANDS = ['U', 'B', 'V', 'R', 'I', 'J', 'H', 'K', 'W1', 'W2', 'W3', 'W4']
 
+def _extremes(rng, k):
+    """physical scales a small sample around the visible never reaches (radio wavelengths x hot sources, far-UV x cold sources) and
+    Blackbody objects (standard and Vega-magnitude) pushed through Spectrum.to"""
+    out = []
+    for i in range(k):
+        if i % 2 == 0:
+            # Planck's law from 1e-8 m to 1e3 m and 3 K to 1e6 K, wavelengths given in any unit
+            lam_m = [10.0 ** float(x) for x in sorted(rng.uniform(-8, 3, 4))]
+            out.append({'kind': 'planck', 'temp': float(10.0 ** rng.uniform(0.5, 6)), 'wu': W[int(rng.integers(0, 4))], 'vu': F[int(rng.integers(0, 3))],
+                        'wave_nm': [x * 1e9 for x in lam_m], 'alias': False, 'extreme': True})
+        else:
+            m = int(rng.integers(2, 7))
+            out.append({'kind': 'bbto', 'vega': bool(rng.integers(0, 2)), 'wave_nm': [float(x) for x in sorted(rng.choice(np.arange(300, 3000), m, replace=False))],
+                        'temp': float(int(rng.integers(2000, 12000))), 'mag': float(int(rng.integers(-2, 12))), 'band': BANDS[int(rng.integers(0, 12))],
+                        'wu': W[int(rng.integers(0, 4))], 'vu': F[int(rng.integers(0, 3))],
+                        'units': [(W + F)[int(x)] for x in rng.integers(0, 7, int(rng.integers(1, 4)))]})
+    return out
+
 def generate(rng, tier):
     n = {'quick': 200, 'thorough': 5000, 'search': 1500}[tier]
-    out = []
+    out = _extremes(rng, {'quick': 12, 'thorough': 300, 'search': 300}[tier])
     for a, b, c in itertools.product(W, W, W):
         out.append({'kind': 'wave', 'a': a, 'b': b, 'c': c, 'x': dyadic(rng, 1, 2000, 4)})
     for a, b, c in itertools.product(F, F, F):
@@ -84,7 +102,8 @@ def signature(c):
     k = c['kind']
     if k in ('wave', 'flux'): return f"{k} {c['a']} {c['b']} {c['c']}"
     if k == 'to': return f"to {c.get('dtype')} {c['wu']} {c['vu']} {c['units']} n={len(c['wave'])} {c['wave'][0]} {c['value'][0]}"
-    if k == 'planck': return f"planck {c['temp']} {c['wu']} {c['vu']}"
+    if k == 'planck': return f"planck {c['temp']} {c['wu']} {c['vu']} {c.get('extreme', False)}"
+    if k == 'bbto': return f"bbto {c['vega']} {c['temp']} {c['wu']} {c['vu']} {c['units']} {c['band']}"
     if k == 'laws': return f"laws {c['temp']}"
     return f"vega {c['band']} {c['wu']} {c['vu']}"
 
@@ -109,6 +128,11 @@ def _rad():
     return R
 
 def impl(c):
+    with warnings.catch_warnings(), np.errstate(all='ignore'):
+        warnings.simplefilter('ignore')
+        return _impl(c)
+
+def _impl(c):
     R = _rad()
     k = c['kind']
     if k == 'wave':
@@ -146,6 +170,14 @@ def impl(c):
                 'exi': [float(x) for x in R.planck_exitance(wave, c['temp'], wu, c['vu'])],
                 'bb': [float(x) for x in R.Blackbody(wave, c['temp'], waveunit=wu, valueunit=c['vu']).value],
                 'H': R.H, 'C': R.C, 'K': R.K}
+    if k == 'bbto':
+        wave = np.array([float(Fraction(x) * MPU['nm'] / MPU[c['wu']]) for x in c['wave_nm']])
+        if c['vega']: b = R.Blackbody.vegamag(wave, c['temp'], c['mag'], c['band'], waveunit=c['wu'], valueunit=c['vu'])
+        else: b = R.Blackbody(wave, c['temp'], waveunit=c['wu'], valueunit=c['vu'])
+        out = {'wave0': [float(x) for x in b.wave], 'value0': [float(x) for x in b.value], 'H': R.H, 'C': R.C}
+        b.to(*c['units'])
+        out.update({'wave': [float(x) for x in b.wave], 'value': [float(x) for x in b.value], 'wu': b.waveunit, 'vu': b.valueunit})
+        return out
     if k == 'laws':
         T = c['temp']
         lam = np.geomspace(2e-8, 2e-2, 400001)     # metres
@@ -184,6 +216,12 @@ def requests(c, io):
         return rs
     return []
 
+def _cancel(c, io, i):
+    """relative error of exp(x)-1 in float64 at x = hc/(λkT): 2^-52/x (the code's formula, kept as it is, loses digits for x << 1)"""
+    lam = c['wave_nm'][i] * 1e-9
+    x = io['H'] * io['C'] / (lam * io['K'] * c['temp'])
+    return 4 * 2.0 ** -52 / x if x < 1 else 0.0
+
 def compare(c, io, mo):
     k = c['kind']
     if k == 'wave':
@@ -212,10 +250,12 @@ def compare(c, io, mo):
         return None
     if k == 'planck':
         got = io['rad'] + io['exi']
-        for g, m in zip(got, mo):
+        for i_, (g, m) in enumerate(zip(got, mo)):
             if not m.get('ok'): return f'model: {m}'
             v = vlib.bitsf(m['v'])
-            if not close(v, g, 1e-9): return f"planck ({c['wu']},{c['vu']}, T={c['temp']}): impl {g!r} model {v!r}"
+            if not (np.isfinite(g) and np.isfinite(v)):
+                if (np.isnan(g) == np.isnan(v)) and (np.isinf(g) == np.isinf(v)): continue
+            if not close(v, g, 1e-9 + _cancel(c, io, i_ % len(io['wave']))): return f"planck ({c['wu']},{c['vu']}, T={c['temp']}): impl {g!r} model {v!r}"
         return None
     return None
 
@@ -283,11 +323,28 @@ def oracle(c, io):
         H, C, K = io['H'], io['C'], io['K']
         for i, x in enumerate(c['wave_nm']):
             lam = x * 1e-9
-            L = 2 * H * C ** 2 / (lam ** 5 * (np.exp(H * C / (lam * K * c['temp'])) - 1))     # W m^-2 sr^-1 m^-1
+            with np.errstate(all='ignore'):
+                L = 2 * H * C ** 2 / (lam ** 5 * np.expm1(H * C / (lam * K * c['temp'])))     # W m^-2 sr^-1 m^-1 (expm1: accurate for small x)
             ref = L / _to_wlam(c['vu'], lam, H, C) * float(MPU[c['wu']])
-            if not close(io['rad'][i], ref, 1e-11): return f"planck_radiance({c['wu']},{c['vu']}) at {x} nm, T={c['temp']}: {io['rad'][i]!r}, physically {ref!r}"
+            xx = H * C / (lam * K * c['temp'])
+            if xx > 700 or xx < 1e-13: continue          # exp overflows / exp(x)-1 has no digits left: outside float64, not a unit question
+            if not close(io['exi'][i], np.pi * io['rad'][i], 1e-14): return f"exitance {io['exi'][i]!r} != pi x radiance {np.pi * io['rad'][i]!r} at {x} nm, T={c['temp']} ({c['wu']},{c['vu']})"
+            if not close(io['rad'][i], ref, 1e-11 + _cancel(c, io, i)): return f"planck_radiance({c['wu']},{c['vu']}) at {x} nm, T={c['temp']}: {io['rad'][i]!r}, physically {ref!r}"
             if not close(io['exi'][i], np.pi * io['rad'][i], 1e-14): return f"exitance {io['exi'][i]!r} != pi x radiance {np.pi * io['rad'][i]!r}"
             if io['bb'][i] != io['rad'][i]: return 'Blackbody.value differs from planck_radiance'
+        return None
+    if k == 'bbto':
+        units = [u.lower() for u in c['units']]
+        wu_f = [u for u in units if u in W][-1] if any(u in W for u in units) else c['wu']
+        vu_f = [u for u in units if u in F][-1] if any(u in F for u in units) else c['vu']
+        if io['wu'] != wu_f or io['vu'] != vu_f: return f"Blackbody.to{tuple(c['units'])}: units {io['wu']},{io['vu']}"
+        H, C = io['H'], io['C']
+        kind = 'Blackbody.vegamag' if c['vega'] else 'Blackbody'
+        for x_nm, w0, v0, w1, v1 in zip(c['wave_nm'], io['wave0'], io['value0'], io['wave'], io['value']):
+            lam = x_nm * 1e-9
+            if not close(w1, float(Fraction(x_nm) * MPU['nm'] / MPU[wu_f]), 1e-13): return f"{kind}.to{tuple(c['units'])}: wavelength {w1!r} is not {x_nm} nm"
+            ref = v0 / float(MPU[c['wu']]) * _to_wlam(c['vu'], lam, H, C) / _to_wlam(vu_f, lam, H, C) * float(MPU[wu_f])
+            if not close(v1, ref, 1e-11): return f"{kind}({c['wu']},{c['vu']}).to{tuple(c['units'])}: value at {x_nm} nm became {v1!r}; the same physical density is {ref!r}"
         return None
     if k == 'laws':
         H, C, K, T = io['H'], io['C'], io['K'], c['temp']
